@@ -3,9 +3,11 @@ import FiberModel.C06.Spec
 import FiberModel.Generated.C06Facts
 /-
 Driver for C06. Case fields (after the id):
-  imm(0/1)  req0  later(`;`-separated requests or `-`)  implObs
+  cfg  req0  later(`;`-separated requests or `-`)  implObs
+cfg     := imm(0/1)[,cs][,ipv][,ph][,split][,tp]     (flags in this order)
 request := proto|name|rest|query|headers|cookies|host|body   (pairs: `hexk=hexv,…` or `-`;
-           body: `n` | `r:<hex>` | `f:<pairs>` | `j:<pairs>`)
+           body: `n` | `r:<hex>` | `f:<pairs>` | `j:<pairs>` | `m:<pairs>~<file pairs>` |
+                 `z:<hex list of encodings>:<hex list of layers>`)
 implObs := acc=during/end/after;…   (each a hex list; after = `na` when imm = 0)
 Special case id `coverage`: one field, the `,`-separated accessor ids the harness probed; compared
 with the regenerated table (every row must have a dynamic confirmation).
@@ -18,6 +20,21 @@ def parsePairs (s : String) : Option (List (Bytes × Bytes)) :=
     match p.splitOn "=" with
     | [k, v] => do some (← fromHex k, ← fromHex v)
     | _ => none
+
+def parseCfg (s : String) : Option Cfg :=
+  match s.splitOn "," with
+  | i :: flags => do
+    let imm ← if i == "1" then some true else if i == "0" then some false else none
+    -- canonical spelling only: known flags, strictly ascending
+    let known := ["cs", "ipv", "ph", "split", "tp"]
+    if !(flags.all known.contains) then none
+    let rec asc : List String → Bool
+      | a :: b :: r => a < b && asc (b :: r)
+      | _ => true
+    if !asc flags then none
+    some { imm, cs := flags.contains "cs", ipv := flags.contains "ipv", ph := flags.contains "ph",
+           split := flags.contains "split", tp := flags.contains "tp" }
+  | [] => none
 
 def parseReq (s : String) : Option Req :=
   match s.splitOn "|" with
@@ -35,6 +52,20 @@ def parseReq (s : String) : Option Req :=
     else if body.startsWith "r:" then do some { base with bkind := 'r', braw := ← fromHex (body.drop 2).toString }
     else if body.startsWith "f:" then do some { base with bkind := 'f', bform := ← parsePairs (body.drop 2).toString }
     else if body.startsWith "j:" then do some { base with bkind := 'j', bform := ← parsePairs (body.drop 2).toString }
+    else if body.startsWith "m:" then
+      match (body.drop 2).toString.splitOn "~" with
+      | [fs, files] => do some { base with bkind := 'm', bform := ← parsePairs fs, bfiles := ← parsePairs files }
+      | _ => none
+    else if body.startsWith "z:" then
+      match (body.drop 2).toString.splitOn ":" with
+      | [es, ls] => do
+        let encs ← hexList es
+        let layers ← hexList ls
+        -- one layer more than the leading run of supported encodings
+        let n := (encs.takeWhile supportedEnc).length
+        if encs.isEmpty || layers.length != n + 1 then none
+        some { base with bkind := 'z', encs, layers }
+      | _ => none
     else none
   | _ => none
 
@@ -47,12 +78,14 @@ def splitAcc (acc : String) : String × Bytes :=
     (m, b (if k.endsWith ")" then (k.dropEnd 1).toString else k))
   | [] => (acc, [])
 
-/-- table row(s) an accessor id is a dynamic confirmation of -/
+/-- name of the table row an accessor id is a dynamic confirmation of -/
 def rowNameOf (meth : String) : String :=
-  -- `Query[string]` → `Query`; `Req.Params` → `Params`; `Bind.Query:map` → `Bind.Query:source`
+  -- `Query[string]` → `Query`; `Bind.Query:map` → `Bind.Query:source`; `Bind.Body:map` → `Bind.Body:dispatch`
   let m := (meth.splitOn "[").headD meth
-  let m := if m.startsWith "Req." then (m.drop 4).toString else m
-  if m.startsWith "Bind." then ((m.splitOn ":").headD m) ++ ":source" else m
+  if m.startsWith "Bind." then
+    let base := (m.splitOn ":").headD m
+    if base == "Bind.Body" || base == "Bind.Custom" then base ++ ":dispatch" else base ++ ":source"
+  else m
 
 def findRow (meth : String) : Option Row :=
   let n := rowNameOf meth
@@ -71,27 +104,33 @@ def parseObs (imm : Bool) (s : String) : Option Obs :=
 def renderObs (d e : List Bytes) (a : Option (List Bytes)) : String :=
   s!"{hexListField d}/{hexListField e}/{match a with | some a => hexListField a | none => "na"}"
 
+/-- accessor id → method part (`Get(Host)` → `Get`, `Query[string](q)` → `Query[string]`) -/
+def methOf (i : String) : String := (i.splitOn "(").headD i
+
 def coverage (probed : String) : Except String Verdict := do
-  let ids := probed.splitOn ","
+  let ids := (probed.splitOn ",").map methOf |>.eraseDups
   let probedRow (r : Row) : Bool :=
     match r.kind with
-    | .ctx => ids.any fun i => (i.splitOn "(").headD i == r.name
-    | .generic => ids.any fun i => (i.splitOn "[").headD i == r.name && (i.splitOn "[").length > 1
-    | .redirect => ids.any fun i => (i.splitOn "(").headD i == r.name
-    | .bind => ids.any fun i => i.startsWith ((r.name.splitOn ":").headD r.name ++ ":")
     | .binder | .conv => true      -- exercised through the Bind.* probes / every getString accessor
+    | _ => ids.any fun i => (findRow i).any fun r' => r'.name == r.name && r'.kind == r.kind
+  -- every row needs a probe, and every probe needs a row (an accessor the translator did not tabulate
+  -- would otherwise escape the obligation)
   let missing := (Facts.rows.filter fun r => !probedRow r).map (·.name)
+  let untabled := ids.filter fun i => (findRow i).isNone
   let notOk := (Facts.rows.filter fun r => !r.okImmutable).map (·.name)
-  let obs := if missing.isEmpty then "covered" else "unprobed:" ++ ",".intercalate missing
+  let obs := if missing.isEmpty && untabled.isEmpty then "covered"
+    else "unprobed:" ++ ",".intercalate missing ++ " untabled:" ++ ",".intercalate untabled
   pure { id := "coverage", modelObs := "covered", implObs := obs, spec := none,
-         tags := ["coverage"] ++ notOk.map (fun n => "table-not-copying:" ++ n) ++ missing.map (fun n => "unprobed:" ++ n) }
+         tags := ["coverage"] ++ notOk.map (fun n => "table-not-copying:" ++ n) ++ missing.map (fun n => "unprobed:" ++ n) ++
+                 untabled.map (fun n => "untabled:" ++ n) }
 
 def handleCase (f : List String) : Except String Verdict := do
   match f with
   | ["coverage", probed] => coverage probed
   | [id, imm, req0, later, impl] =>
     if impl == "invalid" || impl == "unserved" then throw "outside-domain: request outside the structured vocabulary"
-    let imm ← if imm == "1" then pure true else if imm == "0" then pure false else throw "outside-domain: imm"
+    let some cfg := parseCfg imm | throw "outside-domain: cfg"
+    let imm := cfg.imm
     let some q := parseReq req0 | throw "outside-domain: req0"
     let laterN ← if later == "-" then pure 0 else do
       let ls := later.splitOn ";"
@@ -107,7 +146,7 @@ def handleCase (f : List String) : Except String Verdict := do
       -- accessor ids may contain '=' only inside parentheses (they do not); values never do
       let some o := parseObs imm v | throw s!"unparsable observation for {acc}"
       let (meth, key) := splitAcc acc
-      let want := sem q meth key
+      let want := sem cfg q meth key
       if want.isNone then nosem := nosem + 1
       -- spec oracle on the implementation's observation
       if fail.isNone then
@@ -126,7 +165,9 @@ def handleCase (f : List String) : Except String Verdict := do
         else o.after            -- a view: the model cannot say what later requests left there
       if imm && !owned then views := views + 1
       modelParts := modelParts ++ [s!"{acc}={renderObs text text after}"]
-    let tags := [if imm then "immutable" else "mutable", s!"later{min laterN 4}"] ++
+    let tags := [if imm then "immutable" else "mutable", s!"later{min laterN 9}", s!"body-{q.bkind}"] ++
+      (if cfg.cs then ["cs"] else []) ++ (if cfg.split then ["split"] else []) ++ (if cfg.ph then ["ph"] else []) ++
+      (if cfg.ipv then ["ipv"] else []) ++ (if cfg.tp then ["tp"] else []) ++
       (if nosem > 0 then ["has-nosem"] else []) ++ (if views > 0 then ["table-says-view"] else []) ++
       (if imm && laterN > 0 then ["nt"] else [])
     pure { id := id, modelObs := ";".intercalate modelParts, implObs := impl, spec := fail, tags := tags }
